@@ -13,7 +13,7 @@ theorem blocked_mk (s : Stat) : ({ st := some s } : Out).blocked =
 /-- per-step bundle: same report as the ideal list (which is told whether the call was blocked),
 abstraction commutes, configuration kept, invariant preserved (for every growth function), ledger balanced, no fault, and every call that
 reports an error status leaves the whole state unchanged (C16, C08) -/
-theorem step_spec (cfg : Cfg) (a : Arr) (op : Op) (m : Mem) (hinv : a.Inv) (hlive : 0 < m.live)
+theorem step_spec (cfg : Cfg) (a : Arr) (op : Op) (m : Mem) (hinv : a.Inv)
     (hsort : ∀ xs, (cfg.sortFn xs).length = xs.length) :
     (a.step cfg op m).1 = (Spec.Seq.step cfg a.abs op (a.step cfg op m).1.blocked).1 ∧
     (a.step cfg op m).2.1.abs = (Spec.Seq.step cfg a.abs op (a.step cfg op m).1.blocked).2 ∧
@@ -23,7 +23,7 @@ theorem step_spec (cfg : Cfg) (a : Arr) (op : Op) (m : Mem) (hinv : a.Inv) (hliv
     (∀ st, (a.step cfg op m).1.st = some st → st ≠ .ok → (a.step cfg op m).2.1 = a) := by
   cases op with
   | add x =>
-    obtain ⟨sp, sl, sf⟩ := add_spec a x m hinv hlive
+    obtain ⟨sp, sl, sf⟩ := add_spec a x m hinv
     simp only [step, Spec.Seq.step, blocked_mk]
     rcases sp with ⟨ok, habs, hg⟩ | ⟨hb, hsame⟩
     · simp only [ok, Spec.Seq.add]
@@ -33,7 +33,7 @@ theorem step_spec (cfg : Cfg) (a : Arr) (op : Op) (m : Mem) (hinv : a.Inv) (hliv
       · simp only [h, hsame]
         exact ⟨by simp, by simp, by triv, hinv, sl, sf, fun _ _ _ => by triv⟩
   | addAt x i =>
-    obtain ⟨sp, sl, sf⟩ := addAt_spec a x i m hinv hlive
+    obtain ⟨sp, sl, sf⟩ := addAt_spec a x i m hinv
     simp only [step, Spec.Seq.step, blocked_mk]
     rcases sp with ⟨hi, sp⟩ | ⟨hgt, heq⟩
     · have hi' : i ≤ a.abs.length := by simpa using hi
@@ -48,7 +48,7 @@ theorem step_spec (cfg : Cfg) (a : Arr) (op : Op) (m : Mem) (hinv : a.Inv) (hliv
       simp only [heq, Spec.Seq.addAt, hi', if_false]
       exact ⟨by simp, by simp, by triv, hinv, by triv, by triv, fun _ _ _ => by triv⟩
   | trimCapacity =>
-    obtain ⟨sp, sl, sf⟩ := trimCapacity_spec a m hinv hlive
+    obtain ⟨sp, sl, sf⟩ := trimCapacity_spec a m hinv
     simp only [step, Spec.Seq.step, blocked_mk]
     rcases sp with ⟨ok, habs, _, _, hi, hg⟩ | ⟨h, _, hsame⟩
     · simp only [ok]
@@ -157,7 +157,7 @@ open CC.Spec.Seq (IterOp Cursor) in
 /-- one iterator call simulates one step of the ideal cursor; erroring calls change neither the
 array nor the cursor -/
 theorem iterStep_sim (a : Arr) (it : ArrIter) (c : Cursor) (op : IterOp) (m : Mem) (hinv : a.Inv)
-    (hlive : 0 < m.live) (hs : Sim a it c) :
+    (hs : Sim a it c) :
     (a.iterStep it op m).1 = (c.step op (a.iterStep it op m).1.blocked).1 ∧
     Sim (a.iterStep it op m).2.1 (a.iterStep it op m).2.2.1 (c.step op (a.iterStep it op m).1.blocked).2 ∧
     (a.iterStep it op m).2.1.grow = a.grow ∧
@@ -183,7 +183,7 @@ theorem iterStep_sim (a : Arr) (it : ArrIter) (c : Cursor) (op : IterOp) (m : Me
     simp only [Option.some.injEq] at h1
     exact r7 (by rw [h1]; exact h2)
   | add x =>
-    obtain ⟨sp, sl, sf⟩ := iterAdd_sim a it c x m hinv hlive hs
+    obtain ⟨sp, sl, sf⟩ := iterAdd_sim a it c x m hinv hs
     simp only [iterStep, Cursor.step, blocked_mk]
     rcases sp with ⟨ok, hsim, hg⟩ | ⟨hb, hsame, hit⟩
     · simp only [ok]
